@@ -6,10 +6,20 @@ import DdoModel.Examples.TalentschedDp
     (`merge_covers_tail`) — and that the last property FAILS for the first state (`merge_first_lost`: a scene of the first
     state only is in neither set of the merged state, which `get_present` then takes as shot), with a concrete instance on
     which the merged state is worth strictly less than its first state (`merge_not_relaxation_of_first`: `MergeOk` is false
-    as shipped; the driver's `talentsched-merge-first-lost`).
-    Stated, not proved (`def … : Prop`; the driver checks them pointwise on every generated case): `RubAdmissibleStmt`,
-    `MergeOkTailStmt` (soundness of the merge for the states other than the first), `MergeOkSymStmt` (soundness, for every
-    state, of the merge that also makes the first state's scenes optional), `DpExactStmt`. -/
+    as shipped; the driver's `talentsched-merge-first-lost`).  For the REPAIRED merge `mergeStates`: `merge_covers_first`,
+    `merge_covers` (every scene of EVERY merged state is in a set of the merged state), `mergeStates_scenes_sub`,
+    `mergeStates_disjoint`.
+    Stated here as `def … : Prop` and PROVED in `TalentschedProofs*.lean`:
+    * `MergeOkStmt` (`MergeOk`, potential form, for the REPAIRED merge `mergeStates` and EVERY merged state, the first
+      included): `TalentschedProofs.mergeOkStmt`, from the monotonicity of the value-to-go `bestRem_mono` (a state that must
+      shoot fewer scenes and may shoot more is worth at least as much);
+    * `MergeOkTailStmt` (the merge as shipped before the repair, states other than the first): `mergeOkTailStmt`;
+      `MergeOkSymStmt` (the symmetric variant `mergeSym`): `mergeOkSymStmt`;
+    * `DpExactStmt` (initial value + value-to-go of the root = minus the specification's minimum): `TalentschedProofsExact.
+      dpExactStmt`, and its prefix form `DpExactPrefixStmt` / `dpExactPrefixStmt`.
+    STILL stated only (the driver checks it pointwise on every generated case): `RubAdmissibleStmt`; proved of it:
+    `TalentschedProofsRub.rubAdmissible_partial` (the states where no actor is on location, the root among them: the bound is
+    0 and every value-to-go is ≤ 0), and `wfRel_of_rubAdmissible`: every OTHER clause of `WfRel` holds. -/
 namespace Ddo.Examples.TalentschedModel
 open Ddo Ddo.Examples Ddo.Examples.Util
 
@@ -126,7 +136,7 @@ theorem merge_not_relaxation_of_first :
     mergeOkAt witness 1 { scenes := 11, maybe := 0 } { scenes := 10, maybe := 4 } 0 0 = false := by decide
 
 -- ------------------------------------------------------------------------------------------------------------------
--- stated, not proved (checked pointwise by the driver)
+-- statements (checked pointwise by the driver); all but `RubAdmissibleStmt` are proved in `TalentschedProofs*.lean`
 
 /-- a well-formed instance: `k` rows of `n` flags, one cost ≥ 1 per actor, at least `n` durations ≥ 0 -/
 structure TabOk (T : Tab) : Prop where
@@ -136,12 +146,13 @@ structure TabOk (T : Tab) : Prop where
   dur : T.n ≤ T.dur.length ∧ ∀ d ∈ T.dur, 0 ≤ d
   act : T.act = (List.range T.n).map (actOf T.k T.flags)
 
-/-- `RubOk`: the rough upper bound (exact rational evaluation) dominates the value-to-go of every valid state of a depth -/
+/-- `RubOk`: the rough upper bound (exact rational evaluation) dominates the value-to-go of every valid state of a depth.
+    NOT PROVED (partial: `TalentschedProofsRub.rubAdmissible_partial`) -/
 def RubAdmissibleStmt (T : Tab) : Prop :=
   TabOk T → ∀ (d : Nat) (s : St) (r : Int), validB T d s = true → rub? T s = some r → bestRem T d s ≤ (some r : EInt)
 
 /-- `MergeOk` (potential form; `relax` is the identity) for the states OTHER THAN THE FIRST: the merged state is worth at
-    least as much -/
+    least as much.  PROVED: `TalentschedProofs.mergeOkTailStmt` -/
 def MergeOkTailStmt (T : Tab) : Prop :=
   TabOk T → ∀ (d : Nat) (f : St) (rest : List St) (u : St) (h : Int), u ∈ rest →
     (∀ w ∈ f :: rest, validB T d w = true) → bestRem T d u = some h →
@@ -154,13 +165,14 @@ def mergeSym : List St → St
     let m := mergeAcc f rest
     { scenes := m.scenes, maybe := sdiff (m.maybe ||| f.scenes) m.scenes }
 
-/-- `MergeOk` for EVERY merged state, with the symmetric merge -/
+/-- `MergeOk` for EVERY merged state, with the symmetric merge.  PROVED: `TalentschedProofs.mergeOkSymStmt` -/
 def MergeOkSymStmt (T : Tab) : Prop :=
   TabOk T → ∀ (d : Nat) (X : List St) (u : St) (h : Int), u ∈ X →
     (∀ w ∈ X, validB T d w = true) → bestRem T d u = some h →
     ∃ h', bestRem T d (mergeSym X) = some h' ∧ h ≤ h'
 
-/-- the DP model is exact: minus (the initial value + the value-to-go of the root) is the specification's minimum -/
+/-- the DP model is exact: minus (the initial value + the value-to-go of the root) is the specification's minimum.
+    PROVED: `TalentschedProofsExact.dpExactStmt` (prefix form: `DpExactPrefixStmt`, `dpExactPrefixStmt` there) -/
 def DpExactStmt (T : Tab) : Prop :=
   TabOk T → (bestRem T 0 (initSt T)).addI (initVal T) = (specBestExt (specTable T) []).map (fun c => -c)
 
@@ -172,5 +184,66 @@ theorem mergeStates_cons' (f : St) (rest : List St) :
 /-- on the witness of `merge_first_lost` the repaired merge keeps scene 0 possible -/
 theorem merge_first_kept :
     mergeStates [{ scenes := 11, maybe := 0 }, { scenes := 14, maybe := 0 }] = { scenes := 10, maybe := 5 } := by decide
+
+/-- a scene that the FIRST state may (`maybe`) still have to shoot is in one of the two sets of the merged state, whatever the
+    merge (old or repaired): the accumulator starts from the first state's `maybe` and only grows -/
+theorem mergeOld_covers_first_maybe (f : St) (rest : List St) (i : Nat) (h : f.maybe.testBit i = true) :
+    (mergeStatesOld (f :: rest)).scenes.testBit i = true ∨ (mergeStatesOld (f :: rest)).maybe.testBit i = true := by
+  rw [mergeStatesOld_cons]
+  simp only [testBit_sdiff]
+  have hm := mergeAcc_maybe_mono i rest f h
+  cases hs : (mergeAcc f rest).scenes.testBit i
+  · right; simp [hm]
+  · left; rfl
+
+/-- REPAIRED merge: every scene in one of the two sets of the FIRST merged state is in one of the two sets of the merged
+    state (what `merge_first_lost` refutes for the merge as shipped before) -/
+theorem merge_covers_first (f : St) (rest : List St) (i : Nat)
+    (h : f.scenes.testBit i = true ∨ f.maybe.testBit i = true) :
+    (mergeStates (f :: rest)).scenes.testBit i = true ∨ (mergeStates (f :: rest)).maybe.testBit i = true := by
+  rw [mergeStates_cons']
+  apply mergeOld_covers_first_maybe
+  rcases h with h | h <;> simp [Nat.testBit_or, h]
+
+/-- REPAIRED merge: every scene in one of the two sets of ANY merged state is in one of the two sets of the merged state -/
+theorem merge_covers (X : List St) (u : St) (hu : u ∈ X) (i : Nat)
+    (h : u.scenes.testBit i = true ∨ u.maybe.testBit i = true) :
+    (mergeStates X).scenes.testBit i = true ∨ (mergeStates X).maybe.testBit i = true := by
+  cases X with
+  | nil => cases hu
+  | cons f rest =>
+    rcases List.mem_cons.mp hu with rfl | hu
+    · exact merge_covers_first _ rest i h
+    · rw [mergeStates_cons']
+      exact merge_covers_tail _ rest u hu i h
+
+/-- REPAIRED merge: the scenes that MUST be shot in the merged state must be shot in every merged state -/
+theorem mergeStates_scenes_sub (X : List St) (i : Nat) (h : (mergeStates X).scenes.testBit i = true) :
+    ∀ u ∈ X, u.scenes.testBit i = true := by
+  cases X with
+  | nil => intro u hu; cases hu
+  | cons f rest =>
+    rw [mergeStates_cons'] at h
+    have h' := merge_scenes_sub _ i h
+    intro u hu
+    rcases List.mem_cons.mp hu with rfl | hu
+    · exact h' { scenes := u.scenes, maybe := u.maybe ||| u.scenes } List.mem_cons_self
+    · exact h' u (List.mem_cons_of_mem _ hu)
+
+/-- REPAIRED merge: no scene is in both sets of a merged state -/
+theorem mergeStates_disjoint (X : List St) (i : Nat) :
+    ¬ ((mergeStates X).scenes.testBit i = true ∧ (mergeStates X).maybe.testBit i = true) := by
+  cases X with
+  | nil => simp [mergeStates]
+  | cons f rest => rw [mergeStates_cons']; exact merge_disjoint _ i
+
+/-- **`MergeOk`** (potential form, `Wf.lean`; `relax` is the identity) for the REPAIRED merge and EVERY merged state, the first
+    included: a completion of a merged state `u` worth `h` is matched by a completion of `merge X` worth `h' ≥ h`.
+    PROVED: `mergeOkStmt` (`TalentschedProofs.lean`), under `TabOk` (only: costs and durations are not negative). -/
+def MergeOkStmt (T : Tab) : Prop :=
+  TabOk T → ∀ (d : Nat) (X : List St) (u src : St) (dec : Dec) (c h : Int), u ∈ X →
+    (∀ w ∈ X, validB T d w = true) → bestRem T d u = some h →
+    ∃ h', bestRem T d (mergeStates X) = some h' ∧
+      c + h ≤ (relaxation T).relax src u ((relaxation T).merge X) dec c + h'
 
 end Ddo.Examples.TalentschedModel
